@@ -252,6 +252,12 @@ def check_node(p, node, col, feats):
     # ---- source shapes for structured nodes -------------------------------------------------------
     if spec_n["k"] == "class" and isinstance(wire, dict) and wire:
         shapes = {"pairs": [[a, b] for a, b in wire.items()]}
+        # the same pairs in other iterable carriers; one-shot iterators are made afresh for the one call
+        shapes["pairs-tuple"] = tuple((a, b) for a, b in wire.items())
+        shapes["pairs-iter"] = lambda: iter([(a, b) for a, b in wire.items()])
+        shapes["pairs-generator"] = lambda: ((a, b) for a, b in wire.items())
+        shapes["pairs-zip"] = lambda: zip(list(wire.keys()), list(wire.values()))
+        shapes["items-view"] = wire.items()
         if inputs.json_keys_ok(wire):
             try:
                 shapes["json"] = json.dumps(wire)
@@ -268,7 +274,7 @@ def check_node(p, node, col, feats):
             col.ev()
             col.label(f"shape:{name}")
             col.nt(p.key + path + "shape" + name)
-            o = outcome(tl.unmarshal, T_n, x)
+            o = outcome(tl.unmarshal, T_n, x() if callable(x) else x)
             if not same_outcome(o, base):
                 col.violation("source-shapes-agree", dict(case_base, shape=name),
                               f"node {path} ({mat.expr(spec_n, None)}): mapping {describe(base)}; {name} {describe(o)}",
